@@ -36,7 +36,7 @@ def universes():
     return res
 
 
-KIND_PROP = {"read": "C11", "truth3": "C23", "cmp": "C23", "arith": "C23", "order": "C20", "agg": "C21", "err": "C22", "part": "C19"}
+KIND_PROP = {"idx": "C15", "lim": "C33", "read": "C11", "truth3": "C23", "cmp": "C23", "arith": "C23", "order": "C20", "agg": "C21", "err": "C22", "part": "C19"}
 
 
 def cypher_sessions(tier, seed, u):
@@ -44,14 +44,20 @@ def cypher_sessions(tier, seed, u):
           cygen.agg_session(u, tier, seed * 11 + 2), cygen.err_session(tier, seed * 13 + 3)]
     ss += cygen.part_sessions(tier, seed * 17 + 4)
     ss += cyast.read_sessions(tier, seed * 19 + 5)
+    ss += cyast.index_sessions(tier, seed * 23 + 6)
+    ss += cyast.limit_sessions(tier, seed * 29 + 7)
     return ss
 
 
-def corrupt_for_selftest(lines):
-    """Flip recorded observations (one per case kind) and return the kinds corrupted."""
+def corrupt_for_selftest(lines, dirty_lines=()):
+    """Flip recorded observations (one per case kind, on lines without findings of their own) and
+    return the kinds corrupted."""
     out, done = [], set()
-    for line in lines:
+    for lineno, line in enumerate(lines, 1):
         e = json.loads(line)
+        if lineno in dirty_lines:
+            out.append(line)
+            continue
         if e.get("ev") == "case" and e["kind"] not in ("part", "err") and e["kind"] not in done \
                 and e["res"]["out"] == "rows" and e["res"]["rows"]:
             k = e["kind"]
@@ -68,8 +74,11 @@ def corrupt_for_selftest(lines):
                     continue
             elif k == "agg":
                 rows[0][1] = ["int", {"s": 1, "m": [77]}]
-            elif k == "read":
+            elif k in ("read", "idx"):
                 rows.append(rows[0])
+            elif k == "lim" and e.get("resl") and any(r["out"] == "rows" and r["canon"] for r in e["resl"]):
+                r = next(r for r in e["resl"] if r["out"] == "rows" and r["canon"])
+                r["canon"] = r["canon"][1:]
             else:
                 out.append(line)
                 continue
@@ -126,6 +135,10 @@ def cypher_family(tier, seed, sessions=None, tag="main"):
             elif k == "err":
                 if e["res"]["out"] == "err":
                     nonempty[k] = nonempty.get(k, 0) + 1
+            elif k == "lim":
+                outs = {r["out"] for r in e.get("resl", [])}
+                if "err" in outs:      # non-trivial: some limit setting actually stopped the query
+                    nonempty[k] = nonempty.get(k, 0) + 1
             elif rows:
                 nonempty[k] = nonempty.get(k, 0) + 1
             nrows[k] = nrows.get(k, 0) + len(rows)
@@ -135,7 +148,7 @@ def cypher_family(tier, seed, sessions=None, tag="main"):
         f["meta"] = e.get("meta")
     selftest = {"ran": False}
     if sessions is None:
-        cl, done = corrupt_for_selftest(lines)
+        cl, done = corrupt_for_selftest(lines, {f["at"] for f in findings})
         stp = os.path.join(cd, "selftest.ndjson")
         open(stp, "w").write("\n".join(cl) + "\n")
         sf, _ = vlib.tlc_trace("CypherTrace", stp, "cytrace-selftest-" + tier)
@@ -326,3 +339,21 @@ def c27(tier, seed, replay):
                         ASSUME_COMMON + ["the encoder is uniform in the width (the exhaustive model run is at reduced width)",
                                          "floats outside the exactly-decomposable window (|x| >= 2^123 or more than 40 fractional bits) are not generated"])
     return 1 if nv else 0
+
+
+@reg("C15")
+def c15(tier, seed, replay):
+    return cy_prop("C15", tier, seed, replay, ["idx"],
+                   "every history runs on two databases (with / without create_index at a random point); each lookup is judged against "
+                   "the reference evaluated on that database's own dumped graph, so rows(with index) = rows(scan) = reference",
+                   "seeded histories of creates, updates by id and by value, property removal, label add/remove, DETACH DELETE, "
+                   "compaction, reopen; after every step equality lookups for 2 labels x {1, 2, 1.0, 'a', true} in WHERE and inline form")
+
+
+@reg("C33")
+def c33(tier, seed, replay):
+    return cy_prop("C33", tier, seed, replay, ["lim"],
+                   "weakest binding of the set (differential): the oracle is the unlimited run of the same query; wall-clock overshoot "
+                   "of the soft timeout is judged with a slack of 1.5 s",
+                   "14 queries with large intermediates x 5 limit settings each (rows, collection items, apply rows, timeout); a limited "
+                   "run must equal the unlimited rows or fail with a resource-limit error whose observed count is <= limit + 1")
